@@ -32,7 +32,7 @@ type snapshot struct {
 	data []byte
 }
 
-func Child(seed int64, tier, stateFile string, rounds int, saveMs int, compress bool) {
+func Child(seed int64, tier, stateFile string, rounds int, saveMs int, compress bool, slowDisk bool) {
 	run := vlib.StartChild("C11", seed, tier)
 	defer run.ExportState(stateFile)
 	utxo.UTXO_WRITING_TIME_TARGET = time.Duration(saveMs) * time.Millisecond
@@ -55,6 +55,16 @@ func Child(seed int64, tier, stateFile string, rounds int, saveMs int, compress 
 		sigMu.Lock()
 		order[name]++
 		sigMu.Unlock()
+		if slowDisk {
+			// a disk slower than the snapshot producer: the writer goroutine falls behind until the producer
+			// blocks on the full chunk channel (the abort of the next commit is then taken in that wait loop)
+			switch name {
+			case "utxo.save.tmp_created":
+				time.Sleep(60 * time.Millisecond)
+			case "utxo.save.chunk_written":
+				time.Sleep(1500 * time.Microsecond)
+			}
+		}
 		if name == "utxo.save.after_final_rename" {
 			if b, err := os.ReadFile(s.N.Dir + "UTXO.db"); err == nil {
 				snapMu.Lock()
@@ -151,6 +161,13 @@ func Child(seed int64, tier, stateFile string, rounds int, saveMs int, compress 
 		run.Count("saves_completed", int64(order["utxo.save.after_final_rename"]))
 		run.Count("saves_aborted", int64(order["utxo.save.aborted"]))
 		run.Count("undo_files_written", int64(order["utxo.undo.renamed"]))
+		run.Count("producer_waits_on_full_chunk_channel", int64(order["utxo.save.channel_full"]))
+		if slowDisk {
+			run.Count("slow_disk_saves_aborted", int64(order["utxo.save.aborted"]))
+			if order["utxo.save.channel_full"] > 0 && order["utxo.save.aborted"] > 0 {
+				run.Inc("slow_disk_histories_with_abort_while_channel_full")
+			}
+		}
 		run.Count("blocks_flushed_to_disk", int64(order["blockdb.write.index_written"]))
 		sigMu.Unlock()
 		run.Distinct("hook_count_signatures", sig)
@@ -207,6 +224,43 @@ func Child(seed int64, tier, stateFile string, rounds int, saveMs int, compress 
 		t := g.Spend([]refchain.OutPoint{av[0]}, []refchain.Coin{c}, outs, 1, 0, nil, -1)
 		if rr, ok := offer(g.Build(chainsim.BlockSpec{Parent: s.Ref.Tip, Txs: []*refchain.Tx{t}, Fees: 1000}), "ballast"); !ok || rr.Stage != "connected" {
 			return
+		}
+	}
+	if slowDisk {
+		// >100 records of ~66 KB each: more 64 KiB chunks than the snapshot's chunk channel holds
+		for k := 0; k < 10; k++ {
+			view := g.View(s.Ref.Tip)
+			var src refchain.OutPoint
+			found := false
+			for _, op := range g.Spendable(view, s.Ref.Tip.Height+1, true) {
+				if view[op].Value > 1000000 {
+					src, found = op, true
+					break
+				}
+			}
+			if !found {
+				break
+			}
+			c := view[src]
+			var txs []*refchain.Tx
+			for j := 0; j < 14; j++ {
+				outs := []refchain.TxOut{g.OutTrue(c.Value - 8)}
+				for q := 0; q < 7; q++ {
+					scr := bytes.Repeat([]byte{0x51}, 9400)
+					copy(scr[1:], r.Bytes(8))
+					for x := 1; x < 9; x++ {
+						scr[x] = 0x50 + scr[x]&0x0f | 1 // OP_1..OP_15: no sigops, never OP_RETURN
+					}
+					outs = append(outs, refchain.TxOut{Value: 1, Script: scr})
+				}
+				t := g.Spend([]refchain.OutPoint{src}, []refchain.Coin{c}, outs, 1, 0, nil, -1)
+				txs = append(txs, t)
+				src = refchain.OutPoint{Hash: t.TxID(), Idx: 0}
+				c = refchain.Coin{Value: c.Value - 8, Script: outs[0].Script, Height: s.Ref.Tip.Height + 1}
+			}
+			if rr, ok := offer(g.Build(chainsim.BlockSpec{Parent: s.Ref.Tip, Txs: txs, Fees: 14}), "big-records"); !ok || rr.Stage != "connected" {
+				return
+			}
 		}
 	}
 	for round := 0; round < rounds; round++ {
@@ -392,7 +446,7 @@ func Main() {
 		fmt.Sscan(os.Args[2], &seed)
 		fmt.Sscan(os.Args[5], &rounds)
 		fmt.Sscan(os.Args[6], &saveMs)
-		Child(seed, os.Args[3], os.Args[4], rounds, saveMs, os.Args[7] == "c")
+		Child(seed, os.Args[3], os.Args[4], rounds, saveMs, os.Args[7] == "c", len(os.Args) > 8 && os.Args[8] == "slow")
 		return
 	}
 	run := vlib.Start("C11", "exploration")
@@ -404,6 +458,7 @@ func Main() {
 		seed          int64
 		race          bool
 		compress      bool
+		slow          bool
 	}
 	var jobs []job
 	reps := run.N(2, 30)
@@ -416,11 +471,14 @@ func Main() {
 				if false {
 					continue
 				}
-				jobs = append(jobs, job{p, ms, run.Seed*1000 + int64(k), true, k%2 == 0})
+				jobs = append(jobs, job{p, ms, run.Seed*1000 + int64(k), true, k%2 == 0, false})
 			}
 		}
 		// one plain (non-race) run per repetition keeps the schedule fast and different
-		jobs = append(jobs, job{16, 50, run.Seed*1000 + 900 + int64(rep), false, rep%2 == 0})
+		jobs = append(jobs, job{16, 50, run.Seed*1000 + 900 + int64(rep), false, rep%2 == 0, false})
+		// slow disk + a set larger than the chunk channel + un-throttled writer: aborts arrive while the producer
+		// waits for the writer
+		jobs = append(jobs, job{[]int{4, 1, 2, 16}[rep%4], 0, run.Seed*1000 + 950 + int64(rep), rep%2 == 0, rep%2 == 1, true})
 	}
 	var mu sync.Mutex
 	vlib.Parallel(len(jobs), 5, func(i int) {
@@ -435,6 +493,9 @@ func Main() {
 			c = "c"
 		}
 		args := []string{"child", fmt.Sprint(j.seed), run.Tier, sf, fmt.Sprint(rounds), fmt.Sprint(j.saveMs), c}
+		if j.slow {
+			args = append(args, "slow")
+		}
 		env := []string{fmt.Sprintf("GOMAXPROCS=%d", j.procs), fmt.Sprintf("VERIF_YIELD=%d", j.seed), "GORACE=halt_on_error=0 exitcode=66"}
 		res := vlib.RunChild(bin, args, env, nil, 40*time.Minute)
 		desc := map[string]interface{}{"args": args, "GOMAXPROCS": j.procs, "race_build": j.race, "VERIF_YIELD": j.seed}
@@ -470,8 +531,11 @@ func Main() {
 		if j.race {
 			run.Inc("histories_race_build")
 		}
-		run.Distinct("configs", j.procs, j.saveMs, j.race, j.compress)
+		run.Distinct("configs", j.procs, j.saveMs, j.race, j.compress, j.slow)
 	})
+	if run.Get("slow_disk_histories_with_abort_while_channel_full") == 0 && run.Violations() == 0 {
+		run.Inconclusive("no history had a snapshot aborted while its producer was waiting on the full chunk channel")
+	}
 	if run.Get("snapshots_inspected") == 0 && run.Violations() == 0 {
 		run.Inconclusive("no snapshot was inspected")
 	}
